@@ -1086,6 +1086,7 @@ class Context(MetadataContextMixin, object):
                 state = c.evaluate(p, cache=cache, input_value=input_value, input_value_specified=input_value_specified)
             if state.is_error:
                 self.status = Status.ERROR
+                self.is_error = True
                 self.store_metadata()
                 state = state.next_state()
                 state.query = query.encode()
